@@ -529,3 +529,49 @@ def run(ctx) -> None:
     _envelope(ctx, repo, "SpatialEnvelope", _spread_leaf)
     _aberrations_unit(ctx, repo)
     _ctf(ctx, repo)
+
+
+# ---- added after the seeded change C23-seed1: CTF components receive every kernel parameter the CTF owns
+_inner_run_c23 = run
+
+
+def run(ctx) -> None:  # noqa: F811
+    import ast as _ast
+
+    from ..model import ClassInfo as _CI, dotted as _dotted, norm_text as _nt, walk_no_nested as _walk
+    from ..rules import recon as _recon
+
+    ctx.rule("R-COMPONENT-PARAMS", "each component a CTF builds (aperture, envelopes, aberrations) receives every "
+             "constructor parameter that the component's kernel reads (self.<p> in its _evaluate_from_angular_grid) and "
+             "that the CTF itself owns under the same name, from the CTF's own value: a CTF(soft=False) whose aperture "
+             "component silently uses the default soft edge transmits more than Aperture(cutoff, soft=False)")
+    repo = ctx.repo
+    ctf = repo.cls("abtem.transfer", "CTF")
+    ctf_params = set(_recon.ctor_params(repo, ctf) or [])
+    n = 0
+    for prop in ("_aperture", "_aberrations", "_spatial_envelope", "_temporal_envelope"):
+        f = ctf.find_method(prop)
+        ctx.require(f is not None, f"CTF.{prop} not found")
+        rets = [r for r in _walk(f.node) if isinstance(r, _ast.Return) and isinstance(r.value, _ast.Call)]
+        ctx.require(len(rets) == 1, f"CTF.{prop}: constructor call not found")
+        call = rets[0].value
+        comp = repo.resolve_name(f.module, _dotted(call.func) or "")
+        ctx.require(isinstance(comp, _CI), f"CTF.{prop}: component class not resolved")
+        kernel = comp.find_method("_evaluate_from_angular_grid")
+        ctx.require(kernel is not None, f"{comp.name}: kernel not found")
+        comp_params = set(_recon.ctor_params(repo, comp) or [])
+        reads = {a.attr.lstrip("_") for a in _ast.walk(kernel.node) if isinstance(a, _ast.Attribute)
+                 and isinstance(a.value, _ast.Name) and a.value.id == "self"}
+        needed = sorted((reads & comp_params & ctf_params) - {"extent", "gpts", "sampling"})
+        passed = {kw.arg: kw.value for kw in call.keywords if kw.arg}
+        for p in needed:
+            n += 1
+            v = passed.get(p)
+            ok = v is not None and _dotted(v) in (f"self.{p}", f"self._{p}")
+            ctx.check(ok, "R-COMPONENT-PARAMS", f"{ctf.qualname}.{prop}:{p}", f.loc(call),
+                      f"{comp.name} receives {p} from the CTF",
+                      f"CTF.{prop} builds {comp.name}(...) without passing `{p}` from the CTF "
+                      f"({'passes ' + _nt(v) if v is not None else 'not passed: the component uses its default'}), although "
+                      f"{comp.name}'s kernel reads self.{p}", key_detail=p)
+    ctx.require(n >= 4, f"R-COMPONENT-PARAMS matched only {n} parameters")
+    _inner_run_c23(ctx)
